@@ -166,6 +166,7 @@ fn replay_one(v: &Value) -> Result<u64, Value> {
             .symbol_fn("ImplMore", |_| TypedProbe { ty: "ImplMore" })
             .symbol_fn("ImplLess", |_| TypedProbe { ty: "ImplLess" })
             .symbol_fn("ImplGateLess", |_| TypedProbe { ty: "ImplGateLess" })
+            .symbol_fn("ImplWrongSub", |_| TypedProbe { ty: "ImplWrongSub" })
             .symbol_fn("GBox", |_| TypedProbe { ty: "GBox" })
             .symbol_fn("Box", |_| TypedProbe { ty: "Box" })
             .symbol_fn("Mid", |_| TypedProbe { ty: "Mid" })
